@@ -24,16 +24,19 @@ def build():
     u.close('}')
     u.fn(S, 'invalid_header_value_byte', sig_edits=[lambda t: t.sub_code('R12', r'<Error: fmt::Display>', '<Error>')],
          ensures=[Clause('internal', 'r.code == Code::Internal')])
+    u.raw('// A-bytes-33: &Bytes derefs to the byte slice it holds (R17: the coercion in `&self.details` is spelled as a call)\n#[verifier::external_body]\npub fn verif_bytes_deref(b: &Bytes) -> (r: &[u8]) ensures r@ == b@ { unimplemented!() }')
     u._emit('impl Status {'); u._open_header = 'impl Status {'
     for cname, variant in common.CTORS:
         u.fn(S, cname, within='impl Status', nth=0, ensures=[Clause('code', common.CTOR % variant)])
     u.fn(S, 'new', within='impl Status', nth=0, ensures=[Clause('fields', 'r.code == code && r.details@.len() == 0 && r.metadata.headers@ == Map::<Seq<char>, Seq<Seq<u8>>>::empty()')])
-    u.fn(S, 'with_details_and_metadata', within='impl Status', ensures=[Clause('fields', 'r.code == code && r.details == details && r.metadata == metadata')])
+    u.fn(S, 'with_details_and_metadata', within='impl Status', ensures=[Clause('fields', 'r.code == code && r.details == details && r.metadata == metadata', ['C04', 'C20'])])
     u.fn(S, 'with_details', within='impl Status', ensures=[Clause('fields', 'r.code == code && r.details == details && r.metadata.headers@ == Map::<Seq<char>, Seq<Seq<u8>>>::empty()')])
     u.fn(S, 'with_metadata', within='impl Status', ensures=[Clause('fields', 'r.code == code && r.details@.len() == 0 && r.metadata == metadata')])
     u.fn(S, 'code', within='impl Status', nth=0, ensures=[Clause('get', 'r == self.code')])
     u.fn(S, 'message', within='impl Status', nth=0, ensures=[Clause('get', 'r@ == self.message@')])
     u.fn(S, 'metadata', within='impl Status', nth=0, ensures=[Clause('get', '*r == self.metadata')])
+    u.fn(S, 'details', within='impl Status', nth=0, body_edits=[lambda t: t.sub_code('R17', r'&self\.details', 'verif_bytes_deref(&self.details)')], ensures=[Clause('get_the_details_bytes', 'r@ == self.details@', ['C04', 'C20'])])
+    u.fn(S, 'metadata_mut', within='impl Status', nth=0, ensures=[Clause('get_mut', '*r == old(self).metadata && *final(r) == final(self).metadata && final(self).code == old(self).code && final(self).details == old(self).details')])
     for cn, lit in [('GRPC_STATUS', 'grpc-status'), ('GRPC_MESSAGE', 'grpc-message'), ('GRPC_STATUS_DETAILS', 'grpc-status-details-bin')]:
         u.exec_const(S, cn, ensures=[Clause('name', 'Self::%s@ == "%s"@' % (cn, lit))])
     u.fn(S, 'add_header', within='impl Status',
